@@ -262,4 +262,409 @@ def C16(tier, seed, st):
     return res
 
 
-CHECKS = {"C01": C01, "C05": C05, "C09": C09, "C16": C16}
+
+# ---------------------------------------------------------------- C stream (CheckMnemonic + IsMnemonicValid)
+def parse_C(i):
+    """implementation/model line -> (class, valid bit)"""
+    cls, _, v = i.rpartition(" valid=")
+    return cls, v
+
+
+def parse_spec_C(s):
+    f = s.split(" class=")
+    acc = f[0]
+    cls, _, xs = f[1].rpartition(" xs=")
+    return acc, cls, xs
+
+
+def kind(cls):
+    return cls.split()[0] if cls else cls
+
+
+def run_C(res, items, judge):
+    """items: (tag, lang, bytes, expect) ; judge(tag, expect, impl_cls, impl_valid, spec_acc, spec_cls, xs) -> reason or None"""
+    lines = ["C %s %s" % (lang, hx(b)) for _, lang, b, _ in items]
+    impl, model, spec = three_way(lines)
+    for (tag, lang, b, expect), ln, i, m, sp in zip(items, lines, impl, model, spec):
+        res.evaluations += 1
+        res.count("C/" + tag.split(":")[0])
+        icls, iv = parse_C(i)
+        mcls, mv = parse_C(m)
+        if sp == "unspecified":
+            sacc, scls, xs = "reject", "?", "1"
+        else:
+            sacc, scls, xs = parse_spec_C(sp)
+        if kind(icls) not in ("wordlen",):
+            res.nontrivial.add(ln)
+        # IsMnemonicValid <-> CheckMnemonic == nil (C03, part of every validator check)
+        why = None
+        if (iv == "1") != (icls == "nil"):
+            why = "IsMnemonicValid disagrees with CheckMnemonic == nil"
+        if why is None:
+            why = judge(tag, expect, icls, iv, sacc, scls, xs, lang)
+        if why:
+            res.violation(stream="C", case=ln, impl=i, model=m, spec=sp, tag=tag, why=why)
+        else:
+            same = (icls == mcls and iv == mv) if xs == "1" else ((icls == "nil") == (mcls == "nil") and iv == mv)
+            if not same:
+                res.corr_break(stream="C", case=ln, impl=i, model=m, spec=sp, why="model and implementation differ")
+    for k in (0, len(lines) // 2, len(lines) - 1):
+        if lines:
+            res.sample({"case": lines[k][:300], "impl": impl[k], "spec": spec[k]})
+    res.streams["C"] = res.streams.get("C", 0) + len(lines)
+    return impl, spec
+
+
+def judge_common(tag, expect, icls, iv, sacc, scls, xs, lang):
+    """the validator properties that hold for every string under a supported language"""
+    if lang not in LANGS:
+        return "accepted under an unsupported Language value" if icls == "nil" else None
+    if icls == "nil" and sacc != "accept":
+        return "accepted a sentence the specification rejects (C03)"
+    # (a sentence whose words are separated by tabs, doubled or leading/trailing spaces is "accepted" by the
+    #  specification's whitespace-token reading but no property demands that the implementation accept it:
+    #  C03 is one-directional, C02/C10 speak of single U+0020/U+3000-class separators - decided below by class)
+    if xs == "1":
+        if icls != scls:
+            return "error class differs from the specification's classification (C15): expected " + scls
+    else:
+        if scls == "wordlen" and icls != "wordlen":
+            return "wrong word count must give ErrWordLen (C15)"
+        if scls != "wordlen" and kind(icls) != "unknown":
+            return "outside the xsafe domain an acceptable count must give an unknown-word error (C15)"
+    return None
+
+
+def valid_items(rng, tier, langs=LANGS):
+    q = tier == "quick"
+    items = []
+    for lang in langs:
+        for el in ENT_LENS:
+            for e in gens.valid_entropies(rng, el, q):
+                idx = gens.indices_of_entropy(e)
+                items.append(("valid", lang, gens.sentence(lang, idx), "accept"))
+            e = rng.randbytes(el)
+            for sp in gens.ALT_SEPS:
+                items.append(("valid-altsep", lang, gens.sentence(lang, gens.indices_of_entropy(e), sp), "accept"))
+    return items
+
+
+def word_items(rng, tier, langs=LANGS):
+    """every word of every list inside a valid sentence, at rotating positions"""
+    q = tier == "quick"
+    items = []
+    for lang in langs:
+        words = range(2048)
+        if q:
+            start = rng.randrange(8)
+            words = range(start, 2048, 8)
+        for w in words:
+            n = WORD_COUNTS[w % 5]
+            pos = (w * 7) % n
+            idx = gens.sentence_with_word(rng, lang, n, pos, w)
+            items.append(("word", lang, gens.sentence(lang, idx, b" " if w % 2 else None), "accept"))
+    return items
+
+
+def C02(tier, seed, st):
+    res = Result("C02")
+    rng = random.Random(seed)
+    items = valid_items(rng, tier) + word_items(rng, tier)
+    def judge(tag, expect, icls, iv, sacc, scls, xs, lang):
+        if icls == "nil" and sacc != "accept":
+            return "accepted a sentence the specification rejects"
+        if scls == "nil" and xs == "1" and icls != "nil":
+            return "a valid mnemonic was rejected: " + icls
+        if tag in ("valid", "valid-altsep", "word", "generated") and not (scls == "nil" and sacc == "accept"):
+            return "generator self-check: the specification does not classify this constructed sentence as valid (%s)" % scls
+        return None
+    run_C(res, items, judge)
+    # generator output fed back: NewMnemonicByEntropy and NewMnemonic (scripted source) -> CheckMnemonic
+    gl = []
+    for lang in LANGS:
+        for el in ENT_LENS:
+            for z in (0, 1, 2, 4, el):
+                gl.append("E %s %s" % (lang, hx(bytes(z) + rng.randbytes(el - z))))
+            n = el // 4 * 3
+            data = bytes(rng.choice((0, 1, 3))) + rng.randbytes(el)
+            gl.append("N %d %s %s" % (n, lang, gens.script_str([(p, None) for p in gens.fragment(rng, data[:el], 3)])))
+    gi = common.run_impl(gl)
+    back = []
+    for ln, i in zip(gl, gi):
+        res.evaluations += 1
+        if i.startswith("ok "):
+            back.append(("generated", ln.split()[1] if ln[0] == "E" else ln.split()[2], unhx(i.split()[1]), "accept"))
+        else:
+            res.violation(stream=ln[0], case=ln, impl=i, model="", spec="a mnemonic", why="generator failed on a valid size")
+    run_C(res, back, judge)
+    res.streams["E+N"] = len(gl)
+    return res
+
+
+def C03(tier, seed, st):
+    res = Result("C03")
+    rng = random.Random(seed)
+    q = tier == "quick"
+    items = []
+    # damaged sentences
+    for lang in LANGS:
+        for n in WORD_COUNTS:
+            for _ in range(1 if q else 6):
+                idx = gens.indices_of_entropy(bytes(rng.choice((0, 0, 1, 2))) + rng.randbytes(n // 3 * 4))[:n]
+                idx = gens.indices_of_entropy((bytes(rng.choice((0, 1, 2))) + rng.randbytes(n // 3 * 4))[:n // 3 * 4])
+                for tag, b in gens.damaged(rng, lang, idx):
+                    items.append((tag, lang, b, None))
+                # substitutions at each position
+                t = gens.table(lang)
+                for p in range(n):
+                    for w in (rng.sample(range(2048), 3 if q else 60)):
+                        i2 = list(idx)
+                        i2[p] = w
+                        items.append(("subst", lang, gens.sentence(lang, i2, b" "), None))
+    # unsupported Language values never accept
+    for u in UNSUPPORTED:
+        idx = gens.indices_of_entropy(rng.randbytes(16))
+        items.append(("unsupported", u, gens.sentence("English", idx), None))
+    run_C(res, items, lambda *a: judge_common(*a))
+    # all 2048 candidate last words for a prefix: count and set against the specification
+    prefixes = []
+    for lang in (rng.sample(LANGS, 3) if q else LANGS):
+        for n in WORD_COUNTS:
+            for z in ((0,) if q else (0, 1, 2)):
+                e = bytes(z) + rng.randbytes(n // 3 * 4 - z)
+                prefixes.append((lang, n, gens.indices_of_entropy(e)[:n - 1]))
+    lines = []
+    for lang, n, pre in prefixes:
+        for j in range(2048):
+            lines.append("C %s %s" % (lang, hx(gens.sentence(lang, pre + [j], b" "))))
+    impl = common.run_impl(lines)
+    spec = common.run_model(lines, "spec")
+    model = common.run_model(lines, "model")
+    for k, (lang, n, pre) in enumerate(prefixes):
+        sl = slice(k * 2048, (k + 1) * 2048)
+        acc_i = {j for j, r in enumerate(impl[sl]) if r.startswith("nil")}
+        acc_s = {j for j, r in enumerate(spec[sl]) if r.startswith("accept")}
+        acc_m = {j for j, r in enumerate(model[sl]) if r.startswith("nil")}
+        res.evaluations += 2048
+        res.count("C/lastword-sweep", 2048)
+        res.nontrivial.add("sweep %s %d %s" % (lang, n, pre))
+        want = 2 ** (11 - n // 3)
+        if acc_i != acc_s or len(acc_i) != want:
+            bad = sorted(acc_i ^ acc_s)
+            j = bad[0] if bad else 0
+            res.violation(stream="C", case=lines[k * 2048 + j], impl=impl[k * 2048 + j], model=model[k * 2048 + j], spec=spec[k * 2048 + j],
+                          why="accepted last words for a fixed prefix: implementation accepts %d, specification %d, expected %d; first differing index %d" % (len(acc_i), len(acc_s), want, j))
+        elif acc_i != acc_m:
+            res.corr_break(stream="C", case="sweep %s %d" % (lang, n), impl=len(acc_i), model=len(acc_m), why="model and implementation differ")
+    res.streams["C"] += len(lines)
+    res.sample({"sweep": "all 2048 last words", "prefix": prefixes[0][2], "lang": prefixes[0][0], "accepted": 2 ** (11 - prefixes[0][1] // 3)})
+    return res
+
+
+def C15(tier, seed, st):
+    res = Result("C15")
+    rng = random.Random(seed)
+    q = tier == "quick"
+    items = []
+    for lang in LANGS:
+        t = gens.table(lang)
+        for n in WORD_COUNTS:
+            cs = n // 3
+            for _ in range(1 if q else 4):
+                idx = gens.indices_of_entropy(rng.randbytes(n // 3 * 4))
+                # only the count is wrong
+                for k in (n - 1, n + 1, 9, 27, 11, 13):
+                    ws = (idx * 3)[:k]
+                    items.append(("only-count", lang, gens.sentence(lang, ws, b" "), None))
+                # only the checksum is wrong: every other value of the checksum bits (quick: a sample)
+                last = idx[-1]
+                others = [v for v in range(1 << cs) if v != (last & ((1 << cs) - 1))]
+                for v in (rng.sample(others, min(4, len(others))) if q else others):
+                    i2 = idx[:-1] + [(last >> cs << cs) | v]
+                    items.append(("only-checksum", lang, gens.sentence(lang, i2), None))
+                # one unknown token at each position (count fine); two unknown tokens: the first is named
+                for p in range(n):
+                    ws = [t[i] for i in idx]
+                    ws[p] = rng.choice([b"zzzz", b"Xx", "é".encode(), b"\xff", ws[p] + b"x"])
+                    items.append(("unknown-at", lang, b" ".join(ws), None))
+                ws = [t[i] for i in idx]
+                a, b2 = sorted(rng.sample(range(n), 2))
+                ws[a], ws[b2] = b"first-bad", b"second-bad"
+                items.append(("unknown-two", lang, b" ".join(ws), None))
+                # count and words wrong: the count wins
+                items.append(("count-and-unknown", lang, b" ".join([b"qq"] * (n + 1)), None))
+    run_C(res, items, lambda *a: judge_common(*a))
+    return res
+
+
+def C10(tier, seed, st):
+    res = Result("C10")
+    rng = random.Random(seed)
+    q = tier == "quick"
+    pairs = []   # (tag, lang, base bytes, variant bytes)
+    for lang in LANGS:
+        t = gens.table(lang)
+        words = range(2048)
+        if q:
+            words = range(rng.randrange(8), 2048, 8)
+        for w in words:
+            sp_ = gens.spellings(t[w])
+            if not sp_:
+                continue
+            n = WORD_COUNTS[w % 5]
+            pos = (w * 5) % n
+            idx = gens.sentence_with_word(rng, lang, n, pos, w)
+            base = [t[i] for i in idx]
+            for form, v in sp_.items():
+                var = list(base)
+                var[pos] = v
+                sepv = rng.choice(gens.EQUIV_SEPS).encode()
+                pairs.append(("word-" + form, lang, b" ".join(base), sepv.join(var)))
+        # whole sentence in another form / separator
+        for n in WORD_COUNTS:
+            idx = gens.indices_of_entropy(rng.randbytes(n // 3 * 4))
+            base = gens.sentence(lang, idx, b" ")
+            for sepv in gens.EQUIV_SEPS:
+                pairs.append(("sep", lang, base, gens.sentence(lang, idx, sepv.encode())))
+            for form in ("NFC", "NFD", "NFKC"):
+                import unicodedata
+                pairs.append(("sentence-" + form, lang, base, unicodedata.normalize(form, base.decode()).encode()))
+            pairs.append(("sentence-fullwidth", lang, base, b" ".join(gens.fullwidth(w) for w in base.split(b" "))))
+            # invalid sentences too: equal NFKD forms must get equal verdicts
+            bad = list(idx)
+            bad[-1] ^= 1
+            b1 = gens.sentence(lang, bad, b" ")
+            pairs.append(("invalid-sep", lang, b1, gens.sentence(lang, bad, "　".encode())))
+    pool = gens.nfc_like_pool()
+    import unicodedata
+    for _ in range(60 if q else 1500):
+        s = " ".join("".join(rng.choice(pool) for _ in range(rng.randrange(1, 4))) for _ in range(rng.choice((1, 12, 12, 15, 24))))
+        form = rng.choice(("NFC", "NFD", "NFKC", "NFKD"))
+        pairs.append(("arbitrary-" + form, rng.choice(LANGS), s.encode(), unicodedata.normalize(form, s).encode()))
+    # decide equality of NFKD forms with the Coq NFKD
+    kl = []
+    for tag, lang, a, b in pairs:
+        kl.append("K " + hx(a))
+        kl.append("K " + hx(b))
+    kn = common.run_model(kl, "spec")
+    lines = []
+    for tag, lang, a, b in pairs:
+        lines.append("C %s %s" % (lang, hx(a)))
+        lines.append("C %s %s" % (lang, hx(b)))
+    impl, model, spec = three_way(lines)
+    for k, (tag, lang, a, b) in enumerate(pairs):
+        res.evaluations += 2
+        res.count("pair/" + tag)
+        na, nb = kn[2 * k].split()[0], kn[2 * k + 1].split()[0]
+        ia, ib = impl[2 * k], impl[2 * k + 1]
+        ca, cb = parse_C(ia)[0], parse_C(ib)[0]
+        if a != b:
+            res.nontrivial.add(lines[2 * k + 1])
+        if na != nb:
+            res.count("pair-not-equivalent")
+            continue
+        xs = kn[2 * k].endswith("xs=1")
+        sacc = " class=nil " in spec[2 * k] and spec[2 * k].startswith("accept")
+        why = None
+        if (ca == "nil") != (cb == "nil"):
+            why = "two strings with the same NFKD form get different verdicts"
+        elif sacc and ca != "nil":
+            why = "a valid mnemonic is rejected in this spelling"
+        elif xs and ca != cb:
+            why = "two strings with the same NFKD form get different error classes"
+        if why:
+            res.violation(stream="C", case=lines[2 * k + 1], other_case=lines[2 * k], impl=ib, impl_other=ia, model=model[2 * k + 1], spec=spec[2 * k + 1], tag=tag, why=why)
+        else:
+            for j in (2 * k, 2 * k + 1):
+                if (parse_C(impl[j])[0] == "nil") != (parse_C(model[j])[0] == "nil"):
+                    res.corr_break(stream="C", case=lines[j], impl=impl[j], model=model[j], why="model and implementation differ")
+    res.sample({"pair": [lines[1][:200], lines[0][:200]], "impl": [impl[1], impl[0]]})
+    res.streams["C"] = len(lines)
+    res.streams["K"] = len(kl)
+    return res
+
+
+# ---------------------------------------------------------------- C06
+def C06(tier, seed, st):
+    res = Result("C06")
+    rng = random.Random(seed)
+    q = tier == "quick"
+    lines, meta = [], []
+    def add(n, lang, items, tag):
+        lines.append("N %d %s %s" % (n, lang, gens.script_str(items)))
+        meta.append((n, lang, items, tag))
+    for n in WORD_COUNTS:
+        need = n + n // 3
+        for lang in (rng.sample(LANGS, 2) if q else LANGS):
+            data = rng.randbytes(need + 8)
+            # every failure point k < need x failure kind x bytes alongside or not
+            for k in range(need):
+                for e in gens.ERR_KINDS:
+                    add(n, lang, [(data[:k], e)], "fail-with-bytes")
+                    add(n, lang, [(data[:k], None), (b"", e)], "fail-after-bytes")
+                if not q or k % 4 == 0:
+                    cut = rng.randrange(k + 1)
+                    add(n, lang, [(data[:cut], None), (data[cut:k], rng.choice(gens.ERR_KINDS))], "fail-fragmented")
+                    add(n, lang, [(data[:k], None)], "script-ends")
+            # error together with the last needed bytes (success per io.ReadFull), and after them
+            for e in gens.ERR_KINDS:
+                add(n, lang, [(data[:need], e)], "error-with-last-bytes")
+                add(n, lang, [(data[:need - 1], None), (data[need - 1:need], e)], "error-with-last-bytes")
+                add(n, lang, [(data[:need + 3], e)], "overlong-with-error")
+            # all 2-fragmentations, random k-fragmentations incl. empty reads, one byte at a time, over-long
+            for c in (range(need + 1) if not q else rng.sample(range(need + 1), 6)):
+                add(n, lang, [(data[:c], None), (data[c:need], None)], "frag2")
+            for _ in range(4 if q else 40):
+                parts = gens.fragment(rng, data[:need], rng.randrange(2, 9))
+                add(n, lang, [(p, None) for p in parts] + [(b"", "eof")], "fragk")
+            add(n, lang, [(data[i:i + 1], None) for i in range(need)], "bytewise")
+            add(n, lang, [(data, None)], "overlong")
+            add(n, lang, [(b"", None), (b"", None), (data[:need], None)], "empty-reads-first")
+    impl = common.run_impl(lines)
+    model = common.run_model(lines, "model")
+    # expected by the property, computed from the script: encoding (by the specification) of the first need delivered bytes
+    el, eidx = [], []
+    for k, (n, lang, items, tag) in enumerate(meta):
+        d, _ = gens.delivered(items)
+        need = n + n // 3
+        if len(d) >= need:
+            el.append("E %s %s" % (lang, hx(d[:need])))
+            eidx.append(k)
+    es = dict(zip(eidx, common.run_model(el, "spec")))
+    for k, ((n, lang, items, tag), ln, i, m) in enumerate(zip(meta, lines, impl, model)):
+        res.evaluations += 1
+        res.count("N/%d/%s" % (n, tag))
+        res.nontrivial.add(ln)
+        head = i.split(" used=")[0]
+        if k in es:
+            want = es[k]
+            if head != want:
+                res.violation(stream="N", case=ln, impl=i, model=m, spec=want,
+                              why="NewMnemonic must return the encoding of the first 4n/3 delivered bytes")
+                continue
+            sp = gens.sep(lang)
+            if len(unhx(head[3:]).split(sp)) != n:
+                res.violation(stream="N", case=ln, impl=i, model=m, spec="%d words" % n, why="wrong number of words")
+                continue
+        else:
+            if not head.startswith("err ") or head == "err nil":
+                res.violation(stream="N", case=ln, impl=i, model=m, spec="empty string and a non-nil error",
+                              why="the source delivered fewer than 4n/3 bytes: NewMnemonic must fail closed")
+                continue
+        if i.rsplit(" reads=", 1)[0] != m:
+            res.corr_break(stream="N", case=ln, impl=i, model=m, why="model and implementation differ")
+    # io.ReadFull alone
+    rl = ["R %d %s" % (meta[k][0] + meta[k][0] // 3, gens.script_str(meta[k][2])) for k in range(0, len(meta), 7)]
+    ri, rm = common.run_impl(rl), common.run_model(rl, "model")
+    for ln, a, b in zip(rl, ri, rm):
+        res.evaluations += 1
+        if a != b:
+            res.corr_break(stream="R", case=ln, impl=a, model=b, why="read_full differs from io.ReadFull")
+    res.sample({"case": lines[5], "impl": impl[5]})
+    res.sample({"case": lines[-1][:200], "impl": impl[-1][:200]})
+    res.streams["N"] = len(lines)
+    res.streams["R"] = len(rl)
+    return res
+
+
+CHECKS = {"C01": C01, "C02": C02, "C03": C03, "C05": C05, "C06": C06, "C09": C09, "C10": C10, "C15": C15, "C16": C16}
